@@ -16,6 +16,7 @@ use std::time::Duration;
 pub const WAIT: u8 = 0;
 pub const WAIT_TO: u8 = 1; // arg ns; gives up when it times out
 pub const WAIT_WHILE: u8 = 2;
+pub const WAIT_QUIT: u8 = 7; // arg ns; waits once with a time-out and never takes a ticket
 pub const GRANT_ONE: u8 = 3; // avail += 1; notify_one
 pub const GRANT_ALL: u8 = 4; // avail += arg; notify_all
 pub const YIELD: u8 = 5;
@@ -35,6 +36,7 @@ pub fn opname(op: u8) -> &'static str {
         WAIT => "cv.wait",
         WAIT_TO => "cv.wait_timeout",
         WAIT_WHILE => "cv.wait_while",
+        WAIT_QUIT => "cv.wait_timeout(quitter)",
         GRANT_ONE => "grant+notify_one",
         GRANT_ALL => "grant+notify_all",
         YIELD => "yield",
@@ -165,6 +167,24 @@ fn run_ticket(case: &Case) -> Outcome {
                         drop(g);
                         log.ret(c, res, 0);
                     }
+                    WAIT_QUIT => {
+                        // a waiter that leaves after its time-out without ever taking a ticket; if
+                        // it was woken by a notification it does not need, it passes it on
+                        let c = log.call(ai, i, op.0);
+                        let g = m.lock().unwrap();
+                        let mut held = Held(&occ, false, &bad);
+                        held.acquire();
+                        held.release();
+                        let (g, r) = cv.wait_timeout(g, Duration::from_nanos(op.1 as u64)).unwrap();
+                        held.acquire();
+                        let timed_out = r.timed_out();
+                        drop(held);
+                        drop(g);
+                        if !timed_out {
+                            cv.notify_one();
+                        }
+                        log.ret(c, if timed_out { GAVE_UP } else { SERVED }, 1);
+                    }
                     GRANT_ONE | GRANT_ALL => {
                         let c = log.call(ai, i, op.0);
                         {
@@ -204,16 +224,17 @@ fn run_ticket(case: &Case) -> Outcome {
         Err(std::sync::TryLockError::Poisoned(_)) => out.fail("mutex-poisoned", format!("cancelled {cancelled}")),
     }
     let obs = log.take();
-    for o in obs.iter().filter(|o| o.op == WAIT_TO && o.res == GAVE_UP) {
+    for o in obs.iter().filter(|o| (o.op == WAIT_TO || o.op == WAIT_QUIT) && o.res == GAVE_UP) {
         let d = case.actors[o.actor].ops[o.idx].1 as u64;
         if o.vr - o.vc < d {
             out.fail("timed_out-before-the-duration", format!("elapsed {} d {d}", o.vr - o.vc));
         }
     }
-    let waits: Vec<&Obs> = obs.iter().filter(|o| matches!(o.op, WAIT | WAIT_TO | WAIT_WHILE)).collect();
+    let waits: Vec<&Obs> = obs.iter().filter(|o| matches!(o.op, WAIT | WAIT_TO | WAIT_WHILE | WAIT_QUIT)).collect();
     let grants: Vec<&Obs> = obs.iter().filter(|o| matches!(o.op, GRANT_ONE | GRANT_ALL)).collect();
     let overlap = grants.iter().any(|g| waits.iter().any(|w| overlaps(g, w)));
-    let timed_race = grants.iter().any(|g| waits.iter().any(|w| w.op == WAIT_TO && w.res == GAVE_UP && overlaps(g, w)));
+    let timed_race = grants.iter().any(|g| waits.iter().any(|w| (w.op == WAIT_TO || w.op == WAIT_QUIT) && w.res == GAVE_UP && overlaps(g, w)));
+    out.flag_if(obs.iter().any(|o| o.op == WAIT_QUIT), "quitter");
     let pre = sched::preempts() > 0;
     out.flag("ticket");
     out.flag_if(overlap, "notify_overlaps_wait");
@@ -374,7 +395,7 @@ pub fn strategy(g: &GenCfg) -> BoxedStrategy<Case> {
     let g2 = g.clone();
     let d = || prop_oneof![Just(1_000_000u32), Just(2_000_000u32), 1u32..3_000_000];
     // ticket protocol
-    let wop = prop_oneof![3 => Just(Op(WAIT, 0, 0)), 3 => d().prop_map(|d| Op(WAIT_TO, d, 0)), 1 => Just(Op(WAIT_WHILE, 0, 0)), 1 => Just(Op(YIELD, 0, 0)), 1 => d().prop_map(|d| Op(SLEEP, d, 0))];
+    let wop = prop_oneof![3 => Just(Op(WAIT, 0, 0)), 3 => d().prop_map(|d| Op(WAIT_TO, d, 0)), 1 => Just(Op(WAIT_WHILE, 0, 0)), 2 => d().prop_map(|d| Op(WAIT_QUIT, d, 0)), 1 => Just(Op(YIELD, 0, 0)), 1 => d().prop_map(|d| Op(SLEEP, d, 0))];
     let waiter = (0u8..2, proptest::collection::vec(wop, 1..4)).prop_map(|(ctx, ops)| Actor { ctx, role: 0, ops });
     let g3 = g2.clone();
     let ticket = (proptest::collection::vec(waiter, 1..=4), 0u8..2, any::<bool>(), proptest::collection::vec(prop_oneof![2 => Just(0u32), 1 => d()], 8))
